@@ -228,6 +228,11 @@ class SFixed(Template[_FixedTemplateArg], AssignableType):
 
     def __eq__(self, other: int | float | SFixed):
         if isinstance(other, (int, float)):
+            if self._adjust_val(other) * 2**self._exp != other:
+                # other is not representable in this format,
+                # the constructor would truncate it
+                return False
+
             return type(self)(other) == self
         else:
             assert isinstance(other, SFixed)
@@ -575,6 +580,11 @@ class UFixed(Template[_FixedTemplateArg], AssignableType):
 
     def __eq__(self, other: int | float | UFixed):
         if isinstance(other, (int, float)):
+            if self._adjust_val(other) * 2**self._exp != other:
+                # other is not representable in this format,
+                # the constructor would truncate it
+                return False
+
             return type(self)(other) == self
         else:
             assert isinstance(other, UFixed)
